@@ -51,13 +51,23 @@ pub fn run_case(ctx: &mut Ctx, idx: u64) {
     let mut rng = Rng::for_case(ctx.seed, "C14", idx);
     let variant = if rng.chance(1, 2) { Variant::Bytewise } else { Variant::Charwise };
     let kind = gen::any_kind(&mut rng);
-    let mut case: Case = if ctx.slow() {
+    let mut case: Case = if ctx.mode == Mode::Native && (30..34).contains(&idx) {
+        // fixed slots: pattern sets in which one symbol occurs more than 65 536 times (both variants)
+        let v = if idx % 2 == 0 { Variant::Charwise } else { Variant::Bytewise };
+        let k = if idx < 32 { MatchKind::Standard } else { MatchKind::LeftmostLongest };
+        gen::many_patterns_common(&mut rng, v, k)
+    } else if ctx.slow() {
         gen::small_case(&mut rng, variant, kind, true)
+    } else if ctx.mode == Mode::Native && rng.below(1200) == 0 {
+        // one symbol occurring more than 65 536 times: frequency bookkeeping must stay order-independent
+        gen::many_patterns_case(&mut rng, variant, kind)
     } else if rng.below(30) == 0 {
         gen::large_case(&mut rng, variant, kind, if ctx.tier == Tier::Thorough { 5000 } else { 1500 })
     } else {
         gen::small_case(&mut rng, variant, kind, false)
     };
+    let kind = case.spec.kind;
+    let variant = case.spec.variant;
     // make the case's own entry point explicit: values follow the patterns
     if case.spec.entry == Entry::New {
         case.values = (0..case.patterns.len() as u32).collect();
